@@ -89,7 +89,7 @@ def run(ck, F):
                 ck.ok("R2", f"{d}", sp(B, bb), f"Result of {d} ends in {sorted({k for k, _ in kinds})}", fn="main")
             else:
                 ck.violation("R2", f"{d}", sp(B, bb), f"a failure of {d} does not stop the program: result is {sorted({k for k, _ in kinds})}", fn="main")
-    ck.floor("R2", "Result-producing calls in main", n_res, 4)
+    ck.floor("R2", "Result-producing calls in main", n_res, 2)
     # write_xml sink must not be a file
     sink_is_file = None
     if "write_xml" in steps:
